@@ -306,3 +306,21 @@ func c20EndsWithBareBytesKey(bz []byte, depth int) bool {
 	}
 	return false
 }
+
+// c20HasEmptyPayload reports whether bz contains (at any depth that parses) a
+// length-delimited field with a zero-length payload.
+func c20HasEmptyPayload(bz []byte, depth int) bool {
+	fs, _ := c20Parse(bz)
+	for _, f := range fs {
+		if f.typ != 2 {
+			continue
+		}
+		if f.ve == f.ps {
+			return true
+		}
+		if depth < 8 && c20HasEmptyPayload(bz[f.ps:f.ve], depth+1) {
+			return true
+		}
+	}
+	return false
+}
